@@ -459,12 +459,6 @@ def cps(s):
     return [ord(c) for c in s]
 
 
-# C02 only: frames whose FIRST component is NaN or +-inf count as missing whatever the other components hold - that is how
-# numpy's masked_invalid + clump_unmasked on column 0 see them (the library's presence rule); everywhere else a frame is
-# missing iff every component is NaN (the property's "wholly missing frame")
-DECIDING_RULE = [False]
-
-
 def abs_frames(a, k):
     """(n,k) float array -> frames; a row is missing iff every component is NaN"""
     a = np.asarray(a)
@@ -473,11 +467,17 @@ def abs_frames(a, k):
     nan = np.isnan(b)
     out = []
     for i in range(len(a)):
-        if (not np.isfinite(b[i, 0])) if DECIDING_RULE[0] else nan[i].all():
+        if nan[i].all():
             out.append(None)
         else:
             out.append([int(x) for x in u[i]])
     return out
+
+
+def raw_rows(a, k):
+    """(n,k) float array -> every row as k float32 bit patterns, whatever it holds (the model's `see` decides presence)"""
+    b = np.ascontiguousarray(np.asarray(a).astype("<f4")).reshape(-1, k)
+    return [[int(x) for x in row] for row in b.view("<u4")]
 
 
 def abs_vp(vp):
